@@ -6,6 +6,7 @@ package main
 import (
 	_ "embed"
 	"fmt"
+	"go/constant"
 	"go/token"
 	"go/types"
 	"os"
@@ -42,6 +43,10 @@ type Ctx struct {
 	bindParam   map[*ssa.Parameter]ssa.Value
 	curRoot     *ssa.Function // the function a guard-obligation context is analysing
 	frozen      map[*ssa.Global]bool
+	renamed     map[*ssa.Function]string // functions of the reference tree found under a new name -> reference FnName
+	renamedBy   map[string]*ssa.Function
+	keyFrozen   map[*ssa.Global]bool
+	syms        *symRenames     // renamed constants, variables, types and fields (renames.go)
 	privRoots   map[string]bool // locals (by address) that no call can change; their fields survive calls in the walker
 	initCells   map[*ssa.Package]map[*ssa.Global]*cell
 	stats       struct {
@@ -115,6 +120,7 @@ func Load(dir, arch string) (*Ctx, error) {
 			continue
 		}
 		c.modFuncs = append(c.modFuncs, fn)
+		canonComparisons(fn)
 	}
 	sort.Slice(c.modFuncs, func(i, j int) bool {
 		a, b := c.modFuncs[i], c.modFuncs[j]
@@ -135,6 +141,8 @@ func Load(dir, arch string) (*Ctx, error) {
 		}
 	}
 	theCtx = c
+	c.detectSymRenames()
+	c.detectRenames()
 	return c, nil
 }
 
@@ -227,6 +235,9 @@ func (c *Ctx) Pkg(short string) *ssa.Package {
 func (c *Ctx) Func(pkg, name string) *ssa.Function {
 	fn := c.funcQuiet(pkg, name)
 	if fn == nil {
+		if rf := c.renamedFunc(pkg, name); rf != nil {
+			return rf
+		}
 		// the function of the reference tree is gone: if it had exactly one caller there and
 		// that caller still exists, its body was (in all likelihood) inlined into that caller;
 		// the rule then looks at the caller. Otherwise the anchor is unresolved (undecided).
@@ -295,6 +306,9 @@ func (c *Ctx) funcQuiet(pkg, name string) *ssa.Function {
 		tn, mn := name[:i], name[i+1:]
 		t := p.Type(tn)
 		if t == nil {
+			t = p.Type(c.curName("type", pkg, tn))
+		}
+		if t == nil {
 			return nil
 		}
 		for _, typ := range []types.Type{t.Type(), types.NewPointer(t.Type())} {
@@ -325,11 +339,17 @@ func (c *Ctx) Field(pkg, tf string) *types.Var {
 	p := c.SPkgs[full(pkg)]
 	i := strings.Index(tf, ".")
 	if p != nil && i > 0 {
-		if t := p.Type(tf[:i]); t != nil {
+		t := p.Type(tf[:i])
+		if t == nil {
+			t = p.Type(c.curName("type", pkg, tf[:i]))
+		}
+		if t != nil {
 			if st, ok := t.Type().Underlying().(*types.Struct); ok {
-				for j := 0; j < st.NumFields(); j++ {
-					if st.Field(j).Name() == tf[i+1:] {
-						return st.Field(j)
+				for _, fname := range []string{tf[i+1:], c.curName("field", pkg, tf)} {
+					for j := 0; j < st.NumFields(); j++ {
+						if st.Field(j).Name() == fname {
+							return st.Field(j)
+						}
 					}
 				}
 			}
@@ -345,6 +365,9 @@ func (c *Ctx) Global(pkg, name string) *ssa.Global {
 		if g := p.Var(name); g != nil {
 			return g
 		}
+		if g := p.Var(c.curName("var", pkg, name)); g != nil {
+			return g
+		}
 	}
 	c.miss("var " + pkg + "." + name)
 	return nil
@@ -356,6 +379,9 @@ func (c *Ctx) Const(pkg, name string) *ssa.NamedConst {
 		if k := p.Const(name); k != nil {
 			return k
 		}
+		if k := p.Const(c.curName("const", pkg, name)); k != nil {
+			return k
+		}
 	}
 	c.miss("const " + pkg + "." + name)
 	return nil
@@ -364,6 +390,9 @@ func (c *Ctx) Const(pkg, name string) *ssa.NamedConst {
 func (c *Ctx) Type(pkg, name string) types.Type {
 	if p := c.SPkgs[full(pkg)]; p != nil {
 		if t := p.Type(name); t != nil {
+			return t.Type()
+		}
+		if t := p.Type(c.curName("type", pkg, name)); t != nil {
 			return t.Type()
 		}
 	}
@@ -425,11 +454,26 @@ func FnName(fn *ssa.Function) string {
 	if fn == nil {
 		return "<nil>"
 	}
+	if theCtx != nil && theCtx.renamed != nil {
+		if old, ok := theCtx.renamed[fn]; ok {
+			return old // a reference function under a new name keeps its reference name in all tables
+		}
+	}
+	return rawFnName(fn)
+}
+
+func rawFnName(fn *ssa.Function) string {
 	s := fn.String()
 	s = strings.ReplaceAll(s, modPath+"/cmd/gxz", "gxz")
 	s = strings.ReplaceAll(s, modPath+"/internal/", "")
 	s = strings.ReplaceAll(s, modPath+"/lzma", "lzma")
 	s = strings.ReplaceAll(s, modPath, "xz")
+	if theCtx != nil && theCtx.syms != nil && len(theCtx.syms.typeRe) > 0 {
+		// methods of a renamed type keep their reference names
+		if i := strings.Index(s, ")."); i >= 0 && strings.HasPrefix(s, "(") {
+			s = theCtx.syms.normType(s[:i]) + s[i:]
+		}
+	}
 	return s
 }
 
@@ -840,4 +884,241 @@ func (c *Ctx) heirChain(fnName string, depth int) *ssa.Function {
 		}
 	}
 	return c.heirChain(callers[0], depth+1)
+}
+
+// ---- renamed reference functions ----
+//
+// A function of the reference tree that is missing while exactly one function that is not in the
+// reference table has the same package / receiver and is called by exactly the functions that called
+// the missing one (knownedges.txt) is that function under a new name. It keeps its reference name for
+// every table of the checker (FnName), is not a "new helper" (IsNew) and resolves as an anchor.
+func (c *Ctx) detectRenames() {
+	c.renamed = map[*ssa.Function]string{}
+	c.renamedBy = map[string]*ssa.Function{}
+	cur := map[string]*ssa.Function{}
+	for _, fn := range c.modFuncs {
+		if fn.Parent() == nil && fn.Synthetic == "" {
+			cur[rawFnName(fn)] = fn
+		}
+	}
+	prefixOf := func(n string) string {
+		if i := strings.LastIndex(n, "."); i >= 0 {
+			return n[:i]
+		}
+		return n
+	}
+	refCallers := map[string]map[string]bool{}
+	for _, l := range strings.Split(knownEdgesTxt, "\n") {
+		f := strings.Split(strings.TrimSpace(l), "\t")
+		if len(f) == 2 {
+			// closures count as the function they are written in
+			if i := strings.Index(f[1], "$"); i >= 0 {
+				f[1] = f[1][:i]
+			}
+		}
+		if len(f) == 2 && f[0][strings.LastIndex(f[0], ".")+1:] == f[1][strings.LastIndex(f[1], ".")+1:] {
+			// callers with the method's own name are not compared: pointer-receiver and promotion
+			// wrappers are renamed together with the method
+			continue
+		}
+		if len(f) == 2 && f[0] != f[1] {
+			if refCallers[f[0]] == nil {
+				refCallers[f[0]] = map[string]bool{}
+			}
+			refCallers[f[0]][f[1]] = true
+		}
+	}
+	var missing []string
+	for n := range knownFuncs {
+		if cur[n] == nil && !strings.Contains(n, "$") {
+			missing = append(missing, n)
+		}
+	}
+	sort.Strings(missing)
+	var fresh []*ssa.Function
+	for n, fn := range cur {
+		if !knownFuncs[n] && !strings.Contains(n, "$") {
+			fresh = append(fresh, fn)
+		}
+	}
+	sort.Slice(fresh, func(i, j int) bool { return rawFnName(fresh[i]) < rawFnName(fresh[j]) })
+	nowCallers := func(fn *ssa.Function) map[string]bool {
+		out := map[string]bool{}
+		for _, s := range c.callSites(fn) {
+			p := s.Parent()
+			for p != nil && p.Parent() != nil {
+				p = p.Parent()
+			}
+			if p != nil && p != fn && p.Synthetic == "" && p.Name() != fn.Name() {
+				out[rawFnName(p)] = true
+			}
+		}
+		return out
+	}
+	taken := map[*ssa.Function]bool{}
+	for _, m := range missing {
+		want := refCallers[m]
+		var cands []*ssa.Function
+		for _, fn := range fresh {
+			if taken[fn] || prefixOf(rawFnName(fn)) != prefixOf(m) {
+				continue
+			}
+			got := nowCallers(fn)
+			if len(want) == 0 {
+				continue
+			}
+			same := len(got) == len(want)
+			for k := range want {
+				// a caller may itself have been renamed in the same change
+				if !got[k] {
+					ok := false
+					for rf, old := range c.renamed {
+						if old == k && got[rawFnName(rf)] {
+							ok = true
+						}
+					}
+					if !ok {
+						same = false
+					}
+				}
+			}
+			if same {
+				cands = append(cands, fn)
+			}
+		}
+		if len(cands) == 1 {
+			c.renamed[cands[0]] = m
+			c.renamedBy[m] = cands[0]
+			taken[cands[0]] = true
+		}
+	}
+	// functions without recorded callers (methods called through interfaces): the only missing and the
+	// only fresh function under one receiver
+	for _, m := range missing {
+		if c.renamedBy[m] != nil || len(refCallers[m]) != 0 {
+			continue
+		}
+		nm, nf := 0, 0
+		var cand *ssa.Function
+		for _, m2 := range missing {
+			if prefixOf(m2) == prefixOf(m) && c.renamedBy[m2] == nil {
+				nm++
+			}
+		}
+		for _, fn := range fresh {
+			if !taken[fn] && prefixOf(rawFnName(fn)) == prefixOf(m) && len(nowCallers(fn)) == 0 {
+				nf++
+				cand = fn
+			}
+		}
+		if sg := refSigOf(m); sg != "" {
+			// address-taken functions and interface methods: the only fresh function of that
+			// package / receiver with the same signature that nothing calls directly
+			var same []*ssa.Function
+			for _, fn := range fresh {
+				if !taken[fn] && prefixOf(rawFnName(fn)) == prefixOf(m) && len(nowCallers(fn)) == 0 && c.curSigOf(fn) == sg {
+					same = append(same, fn)
+				}
+			}
+			if len(same) == 1 {
+				c.renamed[same[0]] = m
+				c.renamedBy[m] = same[0]
+				taken[same[0]] = true
+				continue
+			}
+		}
+		if nm == 1 && nf == 1 && strings.HasPrefix(prefixOf(m), "(") {
+			c.renamed[cand] = m
+			c.renamedBy[m] = cand
+			taken[cand] = true
+		}
+	}
+}
+
+// renamedFunc: the reference function pkg.name under its new name, if detectRenames found it.
+func (c *Ctx) renamedFunc(pkg, name string) *ssa.Function {
+	short := map[string]string{"": "xz", "xz": "xz", "lzma": "lzma", "cmd/gxz": "gxz", "internal/gflag": "gflag", "internal/xlog": "xlog", "internal/hash": "hash", "internal/term": "term"}[pkg]
+	var cands []string
+	if i := strings.Index(name, "."); i >= 0 {
+		cands = []string{"(*" + short + "." + name[:i] + ")." + name[i+1:], "(" + short + "." + name[:i] + ")." + name[i+1:]}
+	} else {
+		cands = []string{short + "." + name}
+	}
+	for _, cd := range cands {
+		if fn := c.renamedBy[cd]; fn != nil {
+			return fn
+		}
+	}
+	return nil
+}
+
+// canonComparisons rewrites the comparisons of fn that have a constant on the left (`0 == x`,
+// `nil != err`, `4 < lc+lp`) into the form with the constant on the right (`x == 0`, `err != nil`,
+// `lc+lp > 4`). Both spell the same test; the rules describe comparisons in the second form.
+func canonComparisons(fn *ssa.Function) {
+	flip := map[token.Token]token.Token{token.EQL: token.EQL, token.NEQ: token.NEQ, token.LSS: token.GTR, token.GTR: token.LSS, token.LEQ: token.GEQ, token.GEQ: token.LEQ}
+	for _, b := range fn.Blocks {
+		for _, ins := range b.Instrs {
+			bo, ok := ins.(*ssa.BinOp)
+			if !ok {
+				continue
+			}
+			f, isCmp := flip[bo.Op]
+			if !isCmp {
+				continue
+			}
+			_, xk := bo.X.(*ssa.Const)
+			_, yk := bo.Y.(*ssa.Const)
+			if xk && !yk {
+				bo.X, bo.Y, bo.Op = bo.Y, bo.X, f
+			}
+		}
+	}
+	dropRef := func(v ssa.Value, user ssa.Instruction) {
+		if refs := v.Referrers(); refs != nil {
+			for i, r := range *refs {
+				if r == user {
+					*refs = append((*refs)[:i:i], (*refs)[i+1:]...)
+					break
+				}
+			}
+		}
+	}
+	for _, b := range fn.Blocks {
+		for _, ins := range b.Instrs {
+			switch x := ins.(type) {
+			case *ssa.Slice:
+				// s[0:n] is s[:n]; s[n:len(s)] is s[n:]
+				if k, ok := x.Low.(*ssa.Const); ok && k.Value != nil && k.Value.ExactString() == "0" {
+					x.Low = nil
+				}
+				if call, ok := x.High.(*ssa.Call); ok && x.Max == nil {
+					if bi, isB := call.Call.Value.(*ssa.Builtin); isB && bi.Name() == "len" && len(call.Call.Args) == 1 && call.Call.Args[0] == x.X {
+						if _, isPtr := x.X.Type().Underlying().(*types.Pointer); !isPtr {
+							x.High = nil
+							dropRef(call, x)
+						}
+					}
+				}
+			case *ssa.If:
+				// `if b == false` is `if !b`: branch on b with the successors exchanged
+				cmp, ok := x.Cond.(*ssa.BinOp)
+				if !ok || (cmp.Op != token.EQL && cmp.Op != token.NEQ) || len(b.Succs) != 2 {
+					continue
+				}
+				k, isK := cmp.Y.(*ssa.Const)
+				if !isK || k.Value == nil || k.Value.Kind() != constant.Bool {
+					continue
+				}
+				dropRef(cmp, x)
+				x.Cond = cmp.X
+				if refs := cmp.X.Referrers(); refs != nil {
+					*refs = append(*refs, x)
+				}
+				if constant.BoolVal(k.Value) != (cmp.Op == token.EQL) {
+					b.Succs[0], b.Succs[1] = b.Succs[1], b.Succs[0]
+				}
+			}
+		}
+	}
 }
